@@ -45,6 +45,16 @@ class UserMove:
     def __hash__(self):
         return 7
 
+    # a user object may well be falsy (an empty container of sub-moves, a history of verdicts of length 0 ...):
+    # its truth value is not part of the protocol, the driver has no business asking for it
+    def __bool__(self):
+        LOG.append(("getattr", "U", "__bool__"))
+        return False
+
+    def __len__(self):
+        LOG.append(("getattr", "U", "__len__"))
+        return 0
+
     def __getattribute__(self, name):
         if name in MOVE_API or (name.startswith("__") and name.endswith("__")):
             return object.__getattribute__(self, name)
@@ -56,9 +66,16 @@ class UserMove:
         raise AttributeError(f"the driver must not write {name!r} on a user move")
 
     def __call__(self, context):
-        LOG.append(("call", "U"))
+        tag = object.__getattribute__(self, "_tag")
+        LOG.append(("call", tag))
         r = RESULTS.pop(0)
-        if r:
+        if r and tag == "W":
+            # a user-defined cell move: pure shear, the volume is unchanged (det(1 + e E_xy) = 1)
+            cell = np.asarray(context.atoms.cell.array, dtype=float)
+            shear = np.eye(3)
+            shear[0, 1] = 0.04
+            context.atoms.set_cell(cell @ shear, scale_atoms=True)
+        elif r:
             p = context.atoms.positions.copy()
             p[0] += 0.01
             context.atoms.positions = p
@@ -83,6 +100,14 @@ class UserMove:
 class UserCriteria:
     def __init__(self, tag="user"):
         object.__setattr__(self, "_tag", tag)
+
+    def __bool__(self):
+        LOG.append(("getattr", "criteria", "__bool__"))
+        return False
+
+    def __len__(self):
+        LOG.append(("getattr", "criteria", "__len__"))
+        return 0
 
     def __getattribute__(self, name):
         if name in CRIT_API or (name.startswith("__") and name.endswith("__")):
@@ -145,6 +170,7 @@ def build(driver, seed=3):
         mc.add_move(ExchangeMove(np.arange(3), Translation(), bias_towards_insert=1.0), criteria=UserCriteria("exch"), name="exch")
     if driver in ("Isobaric", "Isotension"):
         mc.add_move(CellMove(IsotropicDeformation(0.03)), criteria=UserCriteria("cell"), name="cell")
+        mc.add_move(UserMove("W"), criteria=UserCriteria("shear"), name="shear")
     return mc
 
 
@@ -199,7 +225,7 @@ def run(tier: str) -> int:
                 n_before = len(mc.atoms)
                 for ti, t in enumerate(seg):
                     g.script("choice", t["entry"])
-                    if t["entry"] == "user":
+                    if t["entry"] in ("user", "shear"):
                         RESULTS.append((TRUTHY if t["res"] else FALSY)[(ci + ti) % 5])
                     if t["res"]:
                         # evaluate() is documented to return a bool: only the two bool spellings
@@ -215,8 +241,9 @@ def run(tier: str) -> int:
                         n_before += 1
                         notes.append(("atoms", [n_before - 1]))
                         notes.append(("atoms", [n_before - 1]))  # one per distinct user move (U and V)
-                    if t["acc"] and t["entry"] == "cell":
+                    if t["acc"] and t["entry"] in ("cell", "shear"):
                         notes.append(("cell", None))
+                        notes.append(("cell", None))  # one per distinct user move (U and W)
                 if len(mc.move_history) != len(seg):
                     hist.append(("?", f"{len(mc.move_history)} trials recorded"))
                 if ser and si == 0:
